@@ -9,7 +9,7 @@ HOOKS = ("before_reduce", "before_effect", "before_dispatch")
 GUARDED = {"before_reduce": "REDUCE", "before_effect": None, "before_dispatch": "NOTIFY"}
 
 
-def _flag_writes(body, path, flags, tested=None):
+def _flag_writes(body, path, flags, tested=None, info=None):
     """constant writes to named flags on the path; a flag no switch ever looks at is ignored
     (e.g. the unused result of a shared hook helper inlined into the before_effect phase)"""
     if tested is not None:
@@ -18,7 +18,11 @@ def _flag_writes(body, path, flags, tested=None):
     for bb in path.blocks:
         for st in body.blocks[bb]["stmts"]:
             if st["k"] == "assign" and not st["place"]["p"] and st["place"]["l"] in flags and st["place"]["l"] in body.names:
-                if st["rv"]["k"] == "use" and st["rv"]["op"]["k"] == "const":
+                if info is not None and st["place"]["l"] in info.enum_true:
+                    wv = info.written_value(st)
+                    if wv is not None:
+                        out.append(wv)
+                elif st["rv"]["k"] == "use" and st["rv"]["op"]["k"] == "const":
                     out.append((st["place"]["l"], st["rv"]["op"].get("val") == "true"))
     return out
 
@@ -68,7 +72,7 @@ def mw_table(ctx, rep):
             for verdict in verdicts:
                 seen.add(verdict)
                 cont = (tgt == h)
-                fw = _flag_writes(body, p, flags, ctx.lr(body).flags.tested)
+                fw = _flag_writes(body, p, flags, ctx.lr(body).flags.tested, ctx.lr(body).flags)
                 errs = [e for e in p.calls() if e.site is not None and A.event(e.site) == "ON_ERROR"]
                 key = "%s:%s" % (hook, verdict)
                 where = ctx.where(body, p.blocks[-2] if len(p.blocks) > 1 else s.bb)
@@ -154,6 +158,13 @@ def _flag_guards(ctx, rep, body, fl, hook, phase, h, blks):
             vals.add("param")
             continue
         kind, place, x = bp.def_rvalue(d)
+        info = ctx.lr(body).flags
+        if fl in info.enum_true and kind == "assign":
+            # a two-variant enum flag: the variant it starts with must be the one that is *not*
+            # written by DoneAction (written_value reads it as true)
+            wv = info.written_value({"k": "assign", "place": {"l": fl, "p": []}, "rv": x})
+            vals.add("?" if wv is None else ("true" if wv[1] else "false"))
+            continue
         vals.add(x["op"].get("val") if kind == "assign" and x["k"] == "use" and x["op"]["k"] == "const" else "?")
     rep.check(vals == {"true"}, R, "flag-true-before-hooks:" + hook, ctx.where(body, h), "`%s` is true before the %s hooks run" % (name, hook), "`%s` before the hooks is %s" % (name, sorted(vals)))
     # guard: in the reducer thread's event graph, with every test of the flag taking its false
